@@ -783,6 +783,23 @@ def opVTwice (a : List String) : M String :=
      | _, _, _, _, _ => some "bad-op")
   | _ => some "bad-op"
 
+def opSMEmpty (a : List String) : M String :=
+  match a with
+  | hexs :: idxs :: how :: _ =>
+    (match unhexArg hexs, idxs.toNat? with
+     | some (some data), some idx =>
+       (match Sign.unmarshal data with
+        | .ok m =>
+          let sigs := m.sigs.mapIdx fun i s => if i = idx then { s with sig := if how = "nil" then none else some [] } else s
+          (match Sign.marshal { m with sigs := sigs } with
+           | .ok enc => some ("dec=ok enc=" ++ hexOfBytes enc)
+           | .err _ => some "dec=ok enc=err"
+           | .panic => some "panic"
+           | .unmodelled => none)
+        | .err _ => some "dec=err" | .panic => some "panic" | .unmodelled => none)
+     | _, _ => some "bad-op")
+  | _ => some "bad-op"
+
 /-! ### dispatch -/
 
 def runLine (line : String) : String :=
@@ -818,6 +835,7 @@ def runLine (line : String) : String :=
     | "edit" :: a => opEdit a
     | "resign" :: a => opResign a
     | "vtwice" :: a => opVTwice a
+    | "smempty" :: a => opSMEmpty a
     | _ => some "bad-op"
   match r with
   | some s => s
